@@ -5,7 +5,7 @@ ID = "C18"
 LEAN_MODULE = "Tulisp.Props.C18"
 THEOREMS = []
 PROFILES = ["release", "dev"]
-ENV = {"HARNESS_STACK_KIB": "512"}
+ENV = {"HARNESS_STACK_KIB": "512", "VERIF_STALL": "400"}
 RULE = ("every list-consuming operation (build by tail recursion and by list/mapcar/backquote, length, nth, nthcdr, last, "
         "copy, append, equal on equal and on differing lists, printing, an error message about the list, mapcar, seq-map, "
         "seq-filter, seq-reduce, seq-find, sort, assoc, alist-get, plist-get, backquote splice, dolist, discarding) on "
